@@ -645,7 +645,7 @@ def _body_effect(b):
     return len(b.popped), list(b.pushed)
 
 
-def h_control(c, pkg, op, cond_len=1):
+def h_control(c, pkg, op, cond_len=1, tight=False):
     """constructs with summarised bodies: which body bytes run, on which stack, and what RETURN / raise inside do"""
     F, C = pkg.functions, pkg.classes
     b1, b2 = b'\x01\x00', b'\x00\x01\x01'           # two distinguishable body byte strings
@@ -654,7 +654,8 @@ def h_control(c, pkg, op, cond_len=1):
     operands = {'OP_IF': enc2(b1), 'OP_IF_ELSE': enc2(b1) + enc2(b2), 'OP_TRY_EXCEPT': enc2(b1) + enc2(b2), 'OP_LOOP': enc2(b1),
                 'OP_CALL': b'\x05', 'OP_EVAL': b'', 'OP_DEF': b'\x05' + enc2(b1)}[op]
     below = c.bytes('below', 1)
-    stack = C.Stack()
+    # tight: the item-size limit equals the size of the script handed to OP_EVAL - whatever fits on the stack can be evaluated
+    stack = C.Stack(max_item_size=2) if tight else C.Stack()
     stack.put(below)
     pre = [below]
     cond = None
@@ -906,6 +907,7 @@ def _p_float(tier):
 def _p_control(tier):
     out = [{'op': op} for op in ('OP_IF', 'OP_IF_ELSE', 'OP_TRY_EXCEPT', 'OP_LOOP', 'OP_CALL', 'OP_EVAL', 'OP_DEF')]
     out += [{'op': op, 'cond_len': n} for op in ('OP_IF', 'OP_IF_ELSE', 'OP_LOOP') for n in (0, 2)]
+    out += [{'op': 'OP_EVAL', 'tight': True}]
     return out
 
 
